@@ -361,7 +361,7 @@ int main()
 		int traits = 0; { std::istringstream is(parts[0]); std::string x; is >> x >> traits; }
 		std::vector<std::string> ops(parts.begin() + 1, parts.end());
 		std::string out = traits == 0 ? runCase<momo::DataTraits>(ops) : traits == 1 ? runCase<Traits1>(ops) : runCase<Traits2>(ops);
-		std::puts(out.c_str()); ++cases;
+		std::puts(out.c_str()); std::fflush(stdout); ++cases;
 	}
 	std::fprintf(stderr, "idx cases=%ld injected_faults=%ld\n", cases, g_faults);
 	return 0;
